@@ -82,7 +82,10 @@ def gen_decimal(mx: Mix) -> str:
     elif k == 6:
         body = digits(mx, 1, 3) + '.'
     else:
-        body = mx.pick(['0.0', '000.500', '1.50', '12345678901234567890.123456789', '0.000001', '1000000', '99.990'])
+        body = mx.pick(['0.0', '000.500', '1.50', '12345678901234567890.123456789', '0.000001', '1000000', '99.990',
+                        '0.0000001', '0.000000000000000000015', '0.00000000000000000000000000001', '100000000000000000000',
+                        '0.' + '0' * (6 + mx.below(24)) + digits(mx, 1, 4), digits(mx, 18, 30) + '.' + digits(mx, 18, 30),
+                        digits(mx, 1, 3) + '0' * (2 + mx.below(20)), '0.' + digits(mx, 20, 30)])
     return sign + body
 
 
@@ -424,3 +427,29 @@ def gen_case_string(mx: Mix, t: str) -> tuple[str, str]:
         return s, 'tricky'
     other = mx.pick(ALL_TYPES)
     return gen_valid(mx, other), 'other-type:' + other
+
+
+# ---- python Decimal representations for the decimal -> string sub-check (exponent forms a lexical xs:decimal never has)
+
+def gen_pydecimal(mx: Mix) -> tuple[str, str]:
+    """(python Decimal literal, class): tiny magnitudes, positive exponents, trailing zeros, long digit strings"""
+    k = mx.below(10)
+    sign = '-' if mx.below(4) == 0 else ''
+    nz = mx.pick('123456789')
+    if k < 3:
+        if mx.below(2):
+            return sign + nz + ('.' + digits(mx, 1, 3) if mx.below(2) else '') + 'E-' + str(7 + mx.below(24)), 'tiny'
+        return sign + '0.' + '0' * (6 + mx.below(24)) + nz + digits(mx, 0, 3), 'tiny'
+    if k < 5:
+        return sign + nz + ('.' + digits(mx, 1, 4) if mx.below(2) else '') + 'E+' + str(1 + mx.below(22)), 'pos-exponent'
+    if k == 5:
+        return mx.pick(['12.300', '1.50E-10', '100', '0E-8', '0E+3', '1.0', '1200.00', '5E+0', '0.10', '1E+2', '1.2E+4', '1E-7']), 'trailing-zeros'
+    if k < 8:
+        j = mx.below(3)
+        ip = digits(mx, 18, 30).lstrip('0') or '1'
+        if j == 0:
+            return sign + ip, 'long'
+        if j == 1:
+            return sign + nz + '.' + digits(mx, 18, 30), 'long'
+        return sign + ip + '.' + digits(mx, 18, 30), 'long'
+    return sign + digits(mx, 1, 4).lstrip('0') + '.' + digits(mx, 1, 4) if mx.below(2) else sign + nz + digits(mx, 0, 5), 'plain'
